@@ -186,6 +186,11 @@ func (b *BloomSearchEngine) IngestRows(ctx context.Context, rows []map[string]an
 		return nil
 	case <-ctx.Done():
 		return ctx.Err()
+	case <-b.flushCtx.Done():
+		// The shutdown deadline expired while this call was blocked on a full
+		// ingest buffer. Unwind so Stop can take the write lock even when no
+		// worker is consuming (an engine that was never started).
+		return ErrEngineStopped
 	}
 }
 
@@ -212,6 +217,11 @@ func (b *BloomSearchEngine) Flush(ctx context.Context) error {
 	case <-ctx.Done():
 		b.stateMu.RUnlock()
 		return ctx.Err()
+	case <-b.flushCtx.Done():
+		// Shutdown deadline expired while blocked on a full ingest buffer
+		// (see IngestRows).
+		b.stateMu.RUnlock()
+		return ErrEngineStopped
 	}
 }
 
